@@ -8,7 +8,10 @@ OUT=${1:-/verif/work/coverage}
 rm -rf "$OUT"; mkdir -p "$OUT/prof" "$OUT/run"
 BIN=$(dirname "$(rustup +nightly which rustc)")/../lib/rustlib/x86_64-unknown-linux-gnu/bin
 export CARGO_NET_OFFLINE=true RUSTFLAGS="-C instrument-coverage" CARGO_TARGET_DIR=/verif/harness/target/cov
+# build scripts and proc macros are instrumented too: keep their profiles out of /repo
+export LLVM_PROFILE_FILE="$OUT/prof/build-%p-%m.profraw"
 cd /verif/harness && cargo +nightly build --offline --bins 2>&1 | tail -1
+rm -f "$OUT"/prof/build-*.profraw
 T=$CARGO_TARGET_DIR/debug
 export LLVM_PROFILE_FILE="$OUT/prof/%p-%m.profraw"
 S=${SEED:-1}
